@@ -3,10 +3,13 @@
   Helper lemmas live in Proofs/C04*.lean.
 
   `cfg` is built from Generated/C04.lean, which the translator rewrites from /repo's source on
-  every run; `cfg_good` is the proof obligation that breaks when `process_iter` computes the
-  set differences before draining `_pids_reused` (lead L19), when `pid_exists` lets the
+  every run; `cfg_good` is the proof obligation that breaks when `pid_exists` lets the
   OverflowError of an out-of-range int escape (lead L4), or when `pid`/`ppid` stop being valid
-  `as_dict` names of the kinds the model assumes.
+  `as_dict` names of the kinds the model assumes. The order in which `process_iter` drains
+  `_pids_reused` (`cfg.drainFirst`, lead L19 — a known finding, its repair is pinned by an
+  existing test) selects which model the driver runs; the theorems below are proved for both
+  orders, with the extra hypothesis "no PID is flagged when the iteration starts" for the
+  current one.
 -/
 import PsutilModel.Proofs.C04Aux
 import PsutilModel.Model.C04Gen
@@ -15,7 +18,6 @@ open Spec
 
 /-- what the theorems need of the translator facts -/
 structure Cfg.Good (c : Cfg) : Prop where
-  drain : c.drainFirst = true
   range : c.rangeGuard = true
   pidValid : c.validNames.contains "pid" = true
   pidNoAccess : c.noAccessAttrs.contains "pid" = true
@@ -23,7 +25,7 @@ structure Cfg.Good (c : Cfg) : Prop where
   reuseAccess : c.reuseAttrs.all (fun n => !c.noAccessAttrs.contains n) = true
 
 theorem cfg_good : cfg.Good := by
-  refine ⟨?_, ?_, ?_, ?_, ?_, ?_⟩ <;> decide
+  refine ⟨?_, ?_, ?_, ?_, ?_⟩ <;> decide
 
 /-! ## `pids()` -/
 
@@ -321,23 +323,42 @@ theorem C04_yield_was_listed (c : Cfg) (s : St) (hi : Inv s) (g : Nat) (mid : Li
           obtain ⟨_, _, _, _, _, h3, _⟩ := v6 r p info h
           rw [← q1]; exact h3
 
-/-! ## `process_iter()` — completeness (with the L19 repair: `_pids_reused` drained first) -/
+/-! ## `process_iter()` — completeness -/
 
-/-- **C04_iter_each_listed_once / C04_iter_skips_vanished.** One `next(g)` of a generator whose
-    `attrs` contain no reuse-checking name, in ANY history (overlaps included): if `l` is what `g`
-    has still to visit — for a generator that has not started, ALL listed PIDs in ascending
-    order — then a yield of `p` splits `l` into `pre ++ p :: rest`, `rest` is what remains, and
-    every PID of `pre` (skipped) had vanished from the table; and StopIteration means every
-    remaining PID had vanished. So each listed PID is visited exactly once, in ascending order,
-    and is left out only if it vanished while iterating. -/
-theorem C04_iter_each_listed_once (s : St) (hi : Inv s) (g : Nat) (mid : List KEv) (gen : Gen)
-    (hg : s.gens[g]? = some gen) (hnr : NoReuse cfg gen.attrs) (l : List Nat) (hl : remaining s g = some l) :
+/-- The completeness clause at full strength for a configuration `c`: in ANY state reachable
+    (invariant `Inv`), one `next(g)` of a generator whose `attrs` contain no reuse-checking name:
+    if `l` is what `g` has still to visit — for a generator that has not started, ALL listed PIDs
+    in ascending order — then a yield of `p` splits `l` into `pre ++ p :: rest`, `rest` is what
+    remains, and every PID of `pre` (skipped) had vanished from the table; StopIteration means
+    every remaining PID had vanished. So each listed PID is visited exactly once, in ascending
+    order, and is left out only if it vanished while iterating. -/
+def C04_iter_each_listed_Full (c : Cfg) : Prop :=
+  ∀ (s : St) (g : Nat) (mid : List KEv) (gen : Gen) (l : List Nat),
+    Inv s → s.gens[g]? = some gen → NoReuse c gen.attrs → remaining s g = some l →
+    (∀ r p info, (step c s (.next g mid)).2 = .yield r p info →
+      ∃ pre rest, l = pre ++ p :: rest ∧ remaining (step c s (.next g mid)).1 g = some rest
+        ∧ ∀ q ∈ pre, (s.k.applyAll mid).statStart q = none)
+    ∧ ((step c s (.next g mid)).2 = .stop →
+        remaining (step c s (.next g mid)).1 g = some [] ∧ ∀ q ∈ l, (s.k.applyAll mid).statStart q = none)
+
+/-- **C04_iter_each_listed_once / C04_iter_skips_vanished** hold at full strength — overlapping
+    generators included — for the repaired order (`_pids_reused` drained before the set
+    differences). -/
+theorem C04_iter_each_listed_once (c : Cfg) (hd : c.drainFirst = true) : C04_iter_each_listed_Full c :=
+  fun s g mid gen l hi hg hnr hl => genNext_complete c s (Or.inl hd) g mid hi gen hg hnr l hl
+
+/-- …and for the code as it is (either order) whenever no PID is flagged as recycled at the
+    moment of the call (`_pids_reused` empty) — the remaining case is lead L19, see
+    `C04_L19_counterexample`. -/
+theorem C04_iter_each_listed_once_partial (s : St) (hi : Inv s) (hfl : s.flagged = []) (g : Nat) (mid : List KEv)
+    (gen : Gen) (hg : s.gens[g]? = some gen) (hnr : NoReuse cfg gen.attrs) (l : List Nat)
+    (hl : remaining s g = some l) :
     (∀ r p info, (step cfg s (.next g mid)).2 = .yield r p info →
       ∃ pre rest, l = pre ++ p :: rest ∧ remaining (step cfg s (.next g mid)).1 g = some rest
         ∧ ∀ q ∈ pre, (s.k.applyAll mid).statStart q = none)
     ∧ ((step cfg s (.next g mid)).2 = .stop →
         remaining (step cfg s (.next g mid)).1 g = some [] ∧ ∀ q ∈ l, (s.k.applyAll mid).statStart q = none) :=
-  genNext_complete cfg cfg_good.drain s g mid hi gen hg hnr l hl
+  genNext_complete cfg s (Or.inr hfl) g mid hi gen hg hnr l hl
 
 /-- non-vacuity: three listed PIDs, PID 5 vanishes right after the listing: 1, 9, stop -/
 example : trace cfg (St.init ⟨[⟨9, 109, false, false, .ok⟩, ⟨1, 101, false, false, .ok⟩, ⟨5, 105, false, false, .ok⟩], []⟩)
@@ -355,12 +376,13 @@ example : trace cfg (St.init ⟨[⟨9, 109, false, false, .ok⟩, ⟨1, 101, fal
     machine of Spec/C04.lean: the object yielded for a PID is the one cached for it, entries of
     PIDs that are no longer listed are dropped, entries flagged by `is_running()` are replaced by
     fresh objects, `cache_clear()` empties the cache. *Sequential* (`SeqHist`): a generator is
-    advanced only while no other one is suspended, and `cache_clear()` is called only while none
-    is suspended; outside that region see the counterexamples below. -/
+    advanced only while no other one is suspended, `cache_clear()` is called only while none is
+    suspended, and (for the current order of the prologue, lead L19) no PID is flagged at the
+    moment an iteration starts; outside that region see the counterexamples below. -/
 theorem C04_refines_sequential (k : Kernel) (hk : k.WF) (h : List Op) (hs : SeqHist cfg (St.init k) h) :
     strace cfg.validNames cfg.noAccessAttrs (SSt.init k) h = (trace cfg (St.init k) h).map some := by
   rw [← abs_init]
-  exact trace_sim cfg cfg_good.drain cfg_good.range h _ (init_seqInv k hk) hs
+  exact trace_sim cfg cfg_good.range h _ (init_seqInv k hk) hs
 
 /-! The lemmas below say what the specification machine's cache does — by
     `C04_refines_sequential` that is what the code does on every sequential history. -/
@@ -471,14 +493,17 @@ def fullIter (g : Nat) (attrs : Attrs := .none) : List Op :=
 def histL19 : List Op :=
   fullIter 0 ++ [.kev (.exit 5), .kev (.spawn p5'), .isRunning 1] ++ fullIter 1
 
-/-- **Lead L19 (pre-fix code).** With the set differences computed before `_pids_reused` is
-    drained, the iteration that follows the `is_running()` call yields PIDs 1 and 9 only, although
-    5 is listed — while the specification (and the fixed order) yields a fresh object for 5. -/
+/-- **Lead L19.** With the set differences computed before `_pids_reused` is drained (the order
+    of the current code), the iteration that follows the `is_running()` call yields PIDs 1 and 9
+    only, although 5 is listed — while the specification, and the model with the repaired order,
+    yield a fresh object for 5. Hence `C04_iter_each_listed_Full` fails for the current order
+    exactly when a PID is flagged at the start of an iteration. -/
 theorem C04_L19_counterexample :
-    let bad : Cfg := { cfg with drainFirst := false }
-    (trace bad (St.init k159) histL19).drop 9
+    let cur : Cfg := { cfg with drainFirst := false }
+    let rep : Cfg := { cfg with drainFirst := true }
+    (trace cur (St.init k159) histL19).drop 9
         = [.yield 0 1 none, .yield 2 9 none, .stop, .stop]
-    ∧ (trace cfg (St.init k159) histL19).drop 9
+    ∧ (trace rep (St.init k159) histL19).drop 9
         = [.yield 0 1 none, .yield 3 5 none, .yield 2 9 none, .stop]
     ∧ (strace cfg.validNames cfg.noAccessAttrs (SSt.init k159) histL19).drop 9
         = [some (.yield 0 1 none), some (.yield 3 5 none), some (.yield 2 9 none), some .stop] := by
@@ -530,9 +555,16 @@ theorem C04_reuse_check_skips_pid_counterexample :
            some (.yield 2 9 (some ["ppid"])), some .stop] := by
   decide
 
-/-- non-vacuity of `C04_refines_sequential`: the L19 history (iterate, PID 5 recycled,
-    `is_running()`, iterate) with a `cache_clear()` and an `attrs` iteration is sequential -/
-example : SeqHist cfg (St.init k159) (histL19 ++ [.cacheClear, .pids, .pidExists 5] ++ fullIter 2 (.names ["name", "pid"])) :=
+/-- non-vacuity of `C04_refines_sequential`: iterate, PID 5 recycled, iterate (the stale object is
+    yielded again), `cache_clear()`, `pids()`, `pid_exists(5)`, an `attrs` iteration — sequential
+    for the current code -/
+example : SeqHist cfg (St.init k159)
+    (fullIter 0 ++ [.kev (.exit 5), .kev (.spawn p5')] ++ fullIter 1
+      ++ [.cacheClear, .pids, .pidExists 5] ++ fullIter 2 (.names ["name", "pid"])) :=
   seqHistB_sound cfg _ _ (by decide)
+
+/-- …and the L19 history itself is sequential for the repaired order -/
+example : SeqHist { cfg with drainFirst := true } (St.init k159) histL19 :=
+  seqHistB_sound _ _ _ (by decide)
 
 end Psutil.C04
